@@ -25,7 +25,7 @@ def rt_job(prefix, shape, slen=2, alen=2, tier='quick', trunc=False):
                           'vm_release:3', 'release_array.0:%d' % (alen + 6), 'vm_release.0:%d' % 8, 'release_hashmap.0:1', 'release_hashmap.1:1', 'release_struct.0:1', 'release_struct.1:1', 'release_union.0:1', 'release_tuple.0:1', 'release_closure.0:1',
                           'fnv1a.0:%d' % (slen + 2), 'vm_string_new.0:%d' % (alen + 3), 'memcmp.0:%d' % (slen + 2), 'same:4', 'same.0:%d' % (slen + 3), 'same.1:%d' % (alen + 3)],
                flags=['--slice-formula'], timeout=600 if tier == 'thorough' else 300, group='cop_codec_roundtrip', must_witness=['round trip done'],
-               replay_libs=[],
+               replay_sources=SRC + ['src/nanoisa/isa.c'],
                desc={'value_shape': shape, 'string_len': slen, 'array_len': alen, 'symbolic': 'all payload bits/bytes, buffer size 0..64, buffer fill, truncation length'})
 
 def dec_job(prefix, tag0, size, etag=None, tag1=None, tier='quick', count=None, tag2=None):
@@ -73,4 +73,24 @@ def c16_dec_jobs(prefix, tier):
             for t1 in ('TAG_BOOL', 'TAG_VOID'):
                 for t2 in ('TAG_STRING', 'TAG_INT', 'TAG_ARRAY'):
                     jobs.append(dec_job(prefix, 'TAG_ARRAY', size, etag=et, tag1=t1, count=2, tag2=t2, tier=tier))
+    return jobs
+
+
+def fault_job(prefix, ncalls=1, tier='quick'):
+    d = {'NCALLS': ncalls}
+    return Job(name='%s_copfault_%dcall' % (prefix, ncalls), harness='cop_fault.c', sources=['src/nanovm/heap.c', 'src/nanovm/value.c'], defines=d, unwind=10,
+               unwindset=['cop_deserialize_value_at:3', 'cop_serialize_value:2', 'vm_release:2', 'harness.1:26', 'harness.0:%d' % (ncalls + 1)],
+               remove_bodies=['vm_ffi_call', 'cop_deserialize_value'], flags=['--slice-formula'], timeout=900 if tier == 'thorough' else 420, mem_gb=14,
+               replay='none', must_witness=['shutdown done'], group='cop_fault_schedule',
+               desc={'external_calls': ncalls, 'symbolic': 'result of every read/write/waitpid/fork/pipe (error, EOF, short count, arbitrary bytes), i.e. every fault schedule and every reply; argument value; import index',
+                     'stubs': 'in-process vm_ffi_call and the value decoder return arbitrary results (decoder verified separately)'})
+
+
+def rw_jobs(prefix, tier):
+    jobs = []
+    for d, nm in ((0, 'read_all'), (1, 'write_all')):
+        for ln in ((1, 5) if tier == 'quick' else (1, 2, 5, 9)):
+            jobs.append(Job(name='%s_%s_len%d' % (prefix, nm, ln), harness='cop_rw.c', sources=['src/nanovm/heap.c', 'src/nanovm/value.c'], defines={'DIR': d, 'LEN': ln}, unwind=ln + 3,
+                            timeout=300, flags=['--slice-formula'], replay='none', group='cop_transport', must_witness=['transfer done'],
+                            desc={'function': nm, 'bytes': ln, 'symbolic': 'content, size of every chunk (1..remaining), one EINTR at any point'}))
     return jobs
